@@ -74,6 +74,10 @@ CHECKS = {
          "Histories of 4-10 steps on clusters of 1-4 peers: pin/unpin (varied replication factors) at any member, join of a staging peer through any member (optionally with a concurrent write, optionally with its state-store writes held back), removal of a member at leader or follower including leader and self, add-present, remove-absent, remove-last, restart. After every successful change all remaining members must report the same peerset within 30 s; no-ops change nothing; last-peer removal fails; when Join returns or Ready fires the joiner's Raft applied index covers every earlier acknowledged write and its pinset holds them; a removed peer's Done() closes and its Raft data folder is rotated away; with re-pinning on, pins that fell below their minimum were re-allocated off the removed peer before it left; every member's pinset equals the acknowledged pins after each step.",
          "Bounded progress (30 s) stands in for 'eventually'. peer_watch_interval scaled to 300 ms. Clusters of more than 4 peers and simultaneous membership changes are not driven.",
          "DESIGN.md §4 C17"),
+ "C18": ("exploration", "sanitizer + runtime monitor: Go race detector build of the real components under concurrent hostile workloads; process-level crash and watchdog attribution; structural checks of returned lists",
+         "Eight workload families with PRNG-drawn shapes (goroutines, operations, shutdown point, queue sizes, batching mode, GOMAXPROCS 2-16): stateless tracker + operation table (Track/Untrack/Status/StatusAll/Recover/RecoverAll vs Shutdown), Cluster.Alerts readers while 1200-2600 numbered alerts arrive, metrics.Store writers vs all readers/RemovePeer/Checker (CheckAll, CheckPeers, Watch), real pubsubmon LogMetric/PublishMetric/LatestMetrics vs Shutdown, disk and numpin informers GetMetric vs Shutdown, crdt LogPin/LogUnpin bursts vs State/Peers/Trust vs Shutdown with batching off/size/age, Cluster facade (Pin, Unpin, Status*, Peers, StateSync, Recover*, Alerts, Pins, ID) vs Shutdown with the real tracker, and a Raft peer restarted on a log it replays. A race report with an ipfs-cluster frame, a child that dies (panic, fatal error), a case that exceeds the watchdog twice, or a structurally wrong list (zero/duplicate/never-sent alert, order, nil or duplicate status entries, metrics nobody wrote, two 'latest' for one peer) is a violation.",
+         "Race detection is per observed schedule. Reports with no ipfs-cluster frame in either stack are counted as external, not judged. API servers (REST, proxy) under concurrency are exercised by C11/C12, not here.",
+         "DESIGN.md §4 C18"),
 }
 
 ALL = ["C%02d" % i for i in range(1, 19)]
